@@ -107,6 +107,10 @@ def run(ctx):
     ok2, rej2 = ctx.validate_traces(tr2, "TraceContext", CTX_TRACE, max_rejects=6)
     for x in rej2:
         ev = json.loads(x["trace"][x["at"] - 1])
+        if ev.get("op") == "ctxbig":
+            ctx.violation("C13|context|crowded-directory", "markers %s among %d unrelated files give types %r; alone they give %r" %
+                          (ev["markers"], ev["fillers"], ev["types"], ev["alone"]), ev, name="ctx")
+            continue
         if ev.get("op") == "ctxcli":
             ctx.violation("C13|context|command-line-directory", "wtf run in the %s directory with PWD=%s reports context %r; the directory's context is %r" %
                           (ev["dir"], ev["pwd"], ev["got"], ev["want"]), ev, name="ctx")
